@@ -728,6 +728,7 @@ func runC06(c *Ctx) {
 		}
 	}
 	c06RoundE(c, w)
+	c06RoundF(c, w)
 }
 
 func chainMakerFuncs(w *World) []*ssa.Function {
@@ -938,6 +939,114 @@ func c06RoundE(c *Ctx, w *World) {
 				bad = "no success return recognised"
 			}
 			c.Check(fname(cm)+"#writes-all-preimages", ranges[0].Pos(), bad == "", ifelse(bad == "", "every success return of Commit has passed the pre-image loop", "Commit can succeed ("+bad+") without having gone through the loop that writes the accumulated pre-images: after a restart the node cannot recover the keys of staking records written before it"))
+		}
+	}
+}
+
+// c06RoundF: N13 (builder and importer keep the same end-of-block receipts) and N14 (statistics getters hand out copies).
+func c06RoundF(c *Ctx, w *World) {
+	c.Rule("C06.N13", "SIBLINGS", "the builder's block is accepted by the importer: the receipts the end-of-block hook returns are appended to the block's receipts under ONE condition in all three places that do it — StateProcessor.Process (import), BlockGen / GenerateChain and the miner's worker (build) — namely that the receipt is not nil. A further condition on one side only (skip a receipt without logs) makes the importer derive another receipt root than the builder committed to: an honest block is rejected")
+	c.Min(3)
+	{
+		n := 0
+		for _, fn := range append(w.FuncsIn("core"), w.FuncsIn("miner")...) {
+			if fn.Blocks == nil || strings.HasSuffix(w.fileOf(fn.Pos()), "_test.go") {
+				continue
+			}
+			var eb *ssa.Call
+			for _, ci := range callInstrs(fn) {
+				if o := calleeObj(ci); o != nil && o.Name() == "EndBlock" && recvName(o) != "" && len(callArgs(ci)) >= 5 {
+					if cc, ok := ci.(*ssa.Call); ok {
+						eb = cc
+					}
+				}
+			}
+			if eb == nil {
+				continue
+			}
+			// appends of an element of the hook's receipts
+			for _, in := range allInstrs(fn) {
+				cc, ok := in.(*ssa.Call)
+				if !ok {
+					continue
+				}
+				b, isB := cc.Call.Value.(*ssa.Builtin)
+				if !isB || b.Name() != "append" || len(cc.Call.Args) < 2 {
+					continue
+				}
+				// append(receipts, receipt): a one-element slice literal holding an element of the hook's result
+				elemOfHook := derivesFrom(cc.Call.Args[1], func(x ssa.Value) bool { return x == ssa.Value(eb) })
+				if !elemOfHook {
+					continue
+				}
+				if _, isPtrSlice := cc.Type().Underlying().(*types.Slice); !isPtrSlice {
+					continue
+				}
+				if sl, okS := cc.Type().Underlying().(*types.Slice); !okS || !strings.HasSuffix(sl.Elem().String(), "types.Receipt") {
+					continue
+				}
+				n++
+				c.sites++
+				c.sawFunc(fname(fn))
+				extra := ""
+				for _, a := range atomsOf(factsAt(cc.Block())) {
+					if a.Kind == "isnil" {
+						continue
+					}
+					for _, v := range []ssa.Value{a.X, a.Y} {
+						if v != nil && derivesFrom(v, func(x ssa.Value) bool { return x == ssa.Value(eb) }) {
+							if _, isLen := stripConvNoBind(v).(*ssa.Call); isLen || a.Kind == "cmp" || a.Kind == "eq" {
+								// the loop's own index test compares with len(result): ignore comparisons of the index
+								if cl, isCall := stripConvNoBind(v).(*ssa.Call); isCall {
+									if bi, isBi := cl.Call.Value.(*ssa.Builtin); isBi && bi.Name() == "len" {
+										if ex, isEx := stripConvNoBind(cl.Call.Args[0]).(*ssa.Extract); isEx && ex.Tuple == ssa.Value(eb) {
+											continue
+										}
+										if stripConvNoBind(cl.Call.Args[0]) == ssa.Value(eb) {
+											continue
+										}
+									}
+								}
+								extra = w.Pos(cc.Pos())
+							}
+						}
+					}
+				}
+				c.Check(fmt.Sprintf("%s#hook-receipt-kept-iff-not-nil", fname(fn)), cc.Pos(), extra == "", ifelse(extra == "", "the receipt is appended under no condition but its being non-nil", "the receipt of the end-of-block hook is appended under a further condition on the receipt itself: builder and importer no longer keep the same receipts, the receipt roots differ"))
+			}
+		}
+		if n < 3 {
+			c.Undecided("core+miner#hook-receipt-appends", token.NoPos, fmt.Sprintf("only %d places that append the end-of-block receipts found (Process, GenerateChain, worker expected)", n))
+		}
+	}
+
+	c.Rule("C06.N14", "OWNERSHIP", "the same block on the same parent state gives the same roots whichever state object runs it: the amount getters of a statistics entry (ValKindStat.Get* returning *big.Int) hand out copies — ValKindStat.DeepCopy, and with it StateDB.Copy, builds its copy from these getters, and rewardsToPool changes the residue in place (SetRewardsResidue). A getter that returns the field itself makes a state copy share the big.Int with the original: executing a block on one moves the parent state the other starts from")
+	c.Min(4)
+	{
+		vk := w.Named(statePkg, "ValKindStat")
+		n := 0
+		for _, fn := range w.FuncsIn(statePkg) {
+			if fn.Blocks == nil || fn.Signature.Recv() == nil || !types.Identical(deref(fn.Signature.Recv().Type()), vk) || !strings.HasPrefix(fn.Name(), "Get") {
+				continue
+			}
+			if fn.Signature.Results().Len() != 1 || !isBigIntPtr(fn.Signature.Results().At(0).Type()) {
+				continue
+			}
+			n++
+			c.sites++
+			c.sawFunc(fname(fn))
+			bad := false
+			for _, b := range fn.Blocks {
+				if ret, isRet := b.Instrs[len(b.Instrs)-1].(*ssa.Return); isRet && len(ret.Results) == 1 {
+					if f, _ := loadedField(stripConvNoBind(ret.Results[0])); f != nil {
+						bad = true
+					}
+				}
+			}
+			c.Check(fname(fn)+"#hands-out-a-copy", fn.Pos(), !bad, ifelse(!bad, "returns a new big.Int", "returns the statistics entry's own big.Int: DeepCopy / StateDB.Copy share it with the original, and the in-place setters of one state change the other"))
+		}
+		if n == 0 {
+			c.Undecided(statePkg+"#ValKindStat-getters", token.NoPos, "no *big.Int getter of ValKindStat found")
 		}
 	}
 }
